@@ -261,12 +261,20 @@ def fold_bit_counters(ck: Checker, rule: str, bench: NumBench | None = None):
         rnd = random.Random(77)
         shapes = [[0], [0, 0], [0, 0, 0], [0, 1, 1], [2, 0, 0, 0], [1, 1, 1, 1, 0], [0, 0, 1, 1, 2, 2], [3, 0, 3, 0, 3], [0, 0, 0, 0, 0, 0, 0]]
         shapes += [[rnd.randint(0, 3) for _ in range(rnd.randint(2, 7))] for _ in range(8 if ck.tier == 'quick' else 40)]
-        for levels in shapes:
+        for levels in shapes + [('rep', [0, 0, 1]), ('rep', [1, 1, 1, 0])]:
             n_inst += 1
-            tag = f'{fname}(levels {levels})'
+            repeat = isinstance(levels, tuple)
+            if repeat:
+                levels = levels[1]
+            tag = f'{fname}(levels {levels}{", the first operand listed twice" if repeat else ""})'
             try:
                 c, names = bench.host(len(levels))
-                pairs = list(zip(levels, names))
+                if repeat:
+                    # the same gate listed twice at the same level counts twice
+                    names_used = [names[0]] + names[:-1]
+                else:
+                    names_used = names
+                pairs = list(zip(levels, names_used))
                 res = bench.run(SUM, fname, c, list(pairs))
             except InterpRaise as e:
                 probs.append(f'{tag} raises {e.exc_name}')
@@ -282,7 +290,7 @@ def fold_bit_counters(ck: Checker, rule: str, bench: NumBench | None = None):
             for vals in semantics.bools(len(levels)):
                 total += 1
                 v = eval_all(c, dict(zip(names, vals)))
-                want = sum(int(b) << l for b, l in zip(vals, levels))
+                want = sum(int(v[nm]) << l for nm, l in zip(names_used, levels))
                 got = sum(int(v[lab]) << l for l, lab in out)
                 if got != want:
                     probs.append(f'{tag}: weighted sum {want} comes back as {got}')
